@@ -56,6 +56,9 @@ SpellFrom(ts, i, mode, style) ==
   ELSE LET sep == IF i = 1 THEN <<>>
                   ELSE IF mode = "spaced" THEN <<cSPACE>>
                   ELSE IF mode = "mixed" THEN <<(<<cSPACE, cNL, 9>>)[(i % 3) + 1]>>
+                  ELSE IF mode = "cr" THEN <<13>>
+                  ELSE IF mode = "crlf" THEN <<13, cNL>>
+                  ELSE IF mode = "wide" THEN <<cSPACE, 9, cSPACE>>
                   ELSE IF NeedSep(ts[i - 1], ts[i]) THEN <<cSPACE>> ELSE <<>>
        IN sep \o TokText(ts[i], style) \o SpellFrom(ts, i + 1, mode, style)
 
